@@ -11,7 +11,11 @@ EXTENDS Integers, Sequences, FiniteSets, TLC, Json
 \* MITMGETviaRej / MITMHEADviaRej: a request inside an intercepted session whose own CONNECT - sent by the proxy's
 \* transport to the upstream proxy - is what gets rejected
 Kinds == {"GET", "POST", "HEAD", "CONNECT", "GETviaProxy", "CONNECTviaProxy", "MITMGET", "MITMGETviaRej", "MITMHEADviaRej"}
-Faults == {"dial_refused", "dial_timeout", "tls_garbage", "tls_untrusted", "tls_expired", "tls_wrongname",
+TlsFaults == {"tls_garbage", "tls_untrusted", "tls_expired", "tls_wrongname",
+              \* the origin only speaks a protocol version the proxy does not accept (TLS 1.0); the origin takes the
+              \* ClientHello and never answers (the handshake time-out of the transport ends the wait)
+              "tls_oldversion", "tls_stall"}
+Faults == {"dial_refused", "dial_timeout"} \cup TlsFaults \cup {
            "proxy_connect_403", "proxy_connect_407", "proxy_connect_502", "proxy_connect_403_body",
            "proxy_connect_100",    \* an interim reply and then silence: neither a tunnel nor a rejection
            "proxy_connect_302",    \* a refusal that is not a 4xx/5xx (captive portal, login redirect): still not a tunnel
@@ -27,7 +31,7 @@ Faults == {"dial_refused", "dial_timeout", "tls_garbage", "tls_untrusted", "tls_
 Applies(f, k) ==
   CASE k \in {"MITMGETviaRej", "MITMHEADviaRej"} -> f \in {"proxy_connect_403", "proxy_connect_407", "proxy_connect_502", "proxy_connect_403_body", "proxy_connect_302", "proxy_connect_100"}
     [] f \in {"proxy_stall", "proxy_tls_stall"} -> k = "CONNECTviaProxy"
-    [] f \in {"tls_garbage", "tls_untrusted", "tls_expired", "tls_wrongname"} -> k = "MITMGET"
+    [] f \in TlsFaults -> k = "MITMGET"
     [] f \in {"proxy_connect_403", "proxy_connect_407", "proxy_connect_502", "proxy_connect_403_body", "proxy_connect_302", "proxy_connect_100"} -> k \in {"CONNECTviaProxy", "MITMGETviaRej", "MITMHEADviaRej"}
     [] f \in {"cut_head", "rst_head", "bad_status_line", "bad_field", "bad_field_ctl", "bad_value_ctl", "trailing_garbage", "none"} -> k # "CONNECT"
     \* a 101 nobody asked for (the request was no upgrade request): no tunnel, and no head has been sent to the client yet
@@ -42,7 +46,8 @@ Statuses(f) ==
     \* (the TCP connection to the upstream proxy was established; the statement's "otherwise 5xx" applies - what matters
     \*  is that the connect time-out ends the wait)
     [] f \in {"proxy_stall", "proxy_tls_stall"} -> 500..599
-    [] f \in {"tls_garbage", "tls_untrusted", "tls_expired", "tls_wrongname"} -> {502}
+    [] f = "tls_stall" -> {502, 504}     \* a TLS failure and a time-out
+    [] f \in TlsFaults -> {502}
     [] f \in {"proxy_connect_403", "proxy_connect_403_body"} -> {403}
     [] f = "proxy_connect_407" -> {407}
     [] f = "proxy_connect_502" -> {502}
